@@ -11,13 +11,17 @@ HANDLER_SLOT = 0x80
 KINDS = ['und', 'svc', 'pabt', 'dabt', 'hyp', 'irq', 'fiq']
 VEC = {'reset': 0x00, 'und': 0x04, 'svc': 0x08, 'pabt': 0x0C, 'dabt': 0x10, 'hyp': 0x14, 'irq': 0x18, 'fiq': 0x1C}
 MODE_OF = {'und': 0x1b, 'svc': 0x13, 'dabt': 0x17, 'irq': 0x12, 'fiq': 0x11, 'pabt': 0x17}
-STACK_TOP = {'usr': G.STACKS + 0x200, 'fiq': G.STACKS + 0x300, 'irq': G.STACKS + 0x400, 'svc': G.STACKS + 0x500, 'abt': G.STACKS + 0x600,
-             'und': G.STACKS + 0x700, 'mon': G.STACKS + 0x800, 'hyp': G.STACKS + 0x900}
+# main programs use the usr (or svc) stack, descending from its top; handler stacks start in the MIDDLE of their own 256-byte slot
+# because the ascending SRS variants (SRSIA/SRSIB) build their frame above the stack pointer
+STACK_TOP = {'usr': G.STACKS + 0x200, 'fiq': G.STACKS + 0x280, 'irq': G.STACKS + 0x380, 'svc': G.STACKS + 0x500, 'abt': G.STACKS + 0x5C0,
+             'und': G.STACKS + 0x6C0, 'mon': G.STACKS + 0x7C0, 'hyp': G.STACKS + 0x8C0}
 DPTR = 6                      # r6 holds DATA+0x400 in every main program
 DBASE = G.DATA + 0x400
-RETURNS_ARM = {'irq': ['subs', 'ldm^', 'srs_rfe'], 'fiq': ['subs', 'ldm^', 'srs_rfe'], 'svc': ['movs', 'ldm^', 'srs_rfe'],
-               'und': ['movs', 'ldm^', 'srs_rfe'], 'dabt': ['subs8', 'ldm^8', 'srs_rfe8']}
-RETURNS_THUMB = {'irq': ['subs', 'srs_rfe'], 'fiq': ['subs', 'srs_rfe'], 'svc': ['movs', 'srs_rfe'], 'und': ['movs', 'srs_rfe'], 'dabt': ['subs8', 'srs_rfe8']}
+_SR = ['srs_rfe', 'srs_rfe_iadb', 'srs_rfe_ibda', 'srs_rfe_daib']         # SRSDB+RFEIA, SRSIA+RFEDB, SRSIB+RFEDA, SRSDA+RFEIB
+RETURNS_ARM = {'irq': ['subs', 'ldm^'] + _SR, 'fiq': ['subs', 'ldm^'] + _SR, 'svc': ['movs', 'ldm^'] + _SR,
+               'und': ['movs', 'ldm^'] + _SR, 'dabt': ['subs8', 'ldm^8'] + [x + '8' for x in _SR]}
+RETURNS_THUMB = {'irq': ['subs', 'srs_rfe', 'srs_rfe_iadb'], 'fiq': ['subs', 'srs_rfe', 'srs_rfe_iadb'], 'svc': ['movs', 'srs_rfe', 'srs_rfe_iadb'],
+                 'und': ['movs', 'srs_rfe', 'srs_rfe_iadb'], 'dabt': ['subs8', 'srs_rfe8', 'srs_rfe_iadb8']}
 
 
 def _intc_const_arm(rd):
@@ -50,6 +54,12 @@ def handler_arm(kind, ret, clobber=True):
     if base == 'srs_rfe':
         w = ([A.dp_imm('sub', 14, 14, adj)] if adj else []) + [A.srs(mode, p=1, u=0, w=1), A.push(0x100F)] + body + [A.pop(0x100F), A.rfe(13, p=0, u=1, w=1)]
         return w
+    if base in ('srs_rfe_iadb', 'srs_rfe_ibda', 'srs_rfe_daib'):
+        # the other three SRS/RFE addressing pairs; ascending frames need a gap before the (descending) PUSH
+        sp_, su, rp, ru, gap = {'srs_rfe_iadb': (0, 1, 1, 0, 32), 'srs_rfe_ibda': (1, 1, 0, 0, 32), 'srs_rfe_daib': (0, 0, 1, 1, 0)}[base]
+        w = ([A.dp_imm('sub', 14, 14, adj)] if adj else []) + [A.srs(mode, p=sp_, u=su, w=1)]
+        w += ([A.dp_imm('add', 13, 13, gap)] if gap else []) + [A.push(0x100F)] + body + [A.pop(0x100F)] + ([A.dp_imm('sub', 13, 13, gap)] if gap else [])
+        return w + [A.rfe(13, p=rp, u=ru, w=1)]
     raise ValueError(ret)
 
 
@@ -69,6 +79,9 @@ def handler_thumb(kind, ret, clobber=True):
     if base == 'srs_rfe':
         pre = [0xF1AE0E00 | adj] if adj else []                  # SUB.W lr, lr, #adj
         return pre + [T.srs(mode, db=1, w=1), T.push(0x0F)] + body + [T.pop(0x0F), T.rfe(13, db=0, w=1)]
+    if base == 'srs_rfe_iadb':
+        pre = [0xF1AE0E00 | adj] if adj else []
+        return pre + [T.srs(mode, db=0, w=1), 0xB008, T.push(0x0F)] + body + [T.pop(0x0F), 0xB088, T.rfe(13, db=1, w=1)]      # ADD sp,#32 ... SUB sp,#32
     raise ValueError(ret)
 
 
